@@ -13,6 +13,37 @@ func init() { props["C03"] = propC03 }
 // is k_1 … k_sel followed by b_sel.
 func propC03(c *ctx) error {
 	res := c.res
+	// a condition holds exactly when its value is the string "true": padded, re-cased or partial spellings select the
+	// else branch — as condition values written in the template and as strings coming from the data
+	for _, cv := range []string{" ${t}", "${t} ", " ${t} ", "${t}\n", "\n  ${t}\n", "true ", " true", "${pad}", "${tpad}", "${'true '}", "${st + ' '}", "TRUE", "True", "${up}", "tru", "truee", "${t}${t}", "${t} ${f}", "1", "${one}", "yes", "${nl}"} {
+		for _, kind := range []string{"if", "elif"} {
+			tpl := `<p :if="` + cv + `">A</p><p :else>B</p>`
+			want := "<p>B</p>"
+			if kind == "elif" {
+				tpl = `<p :if="${f}">Z</p><p :elif="` + cv + `">A</p><p :else>B</p>`
+			}
+			rc := &renderCase{Files: [][2]string{{"t", tpl}}, Tpl: "t", Data: vMap(kv{"t", vBool(true)}, kv{"f", vBool(false)}, kv{"pad", vStr(" true")}, kv{"tpad", vStr("true\t")},
+				kv{"st", vStr("true")}, kv{"up", vStr("TRUE")}, kv{"one", vInt(1)}, kv{"nl", vStr("true\n")}).j}
+			impl, _, err := compareRender(c, rc, true)
+			if err != nil {
+				return err
+			}
+			res.eval("padded|"+tpl, true, J{"tpl": tpl})
+			res.S3Checked++
+			res.count("padded_true_conditions")
+			if impl.St != "ok" || impl.text() != want {
+				res.violate(rc.toJ(), want, J{"st": impl.St, "out": impl.text()}, "a condition whose value is not exactly the string \"true\" is treated as true")
+			}
+		}
+	}
+	// controls: the exact spellings hold
+	for _, cv := range []string{"${t}", "true", "${st}", "${'tr' + 'ue'}", "tr${'ue'}"} {
+		tpl := `<p :if="` + cv + `">A</p><p :else>B</p>`
+		rc := &renderCase{Files: [][2]string{{"t", tpl}}, Tpl: "t", Data: vMap(kv{"t", vBool(true)}, kv{"st", vStr("true")}).j}
+		if impl := implRender(rc, -1); impl.text() != "<p>A</p>" {
+			res.SelfTest = append(res.SelfTest, "C03 control: condition "+cv+" does not hold: "+impl.text())
+		}
+	}
 	res.Rule = "all chain lengths 1..4 x with/without else x all truth assignments x placements (top, nested, range body, fragment, branch of another chain) x one extra directive x separators, plus histories of executions of one template object; distinct = distinct (template,data); non-trivial = every case (each has at least one chain)"
 	type chainCase struct {
 		rc       *renderCase
